@@ -202,7 +202,7 @@ func markerCases(maxLen int, full bool) []caseSpec {
 				id := 0
 				next := func() int { id++; return id }
 				k := keyFor(kind, 1)
-				cs := caseSpec{Scen: "marker", IdleSec: 2, WriteSec: wi, Reopen: []string{"idle", "restart"}[n%2]}
+				cs := caseSpec{Scen: "marker", IdleSec: 2, WriteSec: wi, Reopen: []string{"idle", "restart"}[n%2], Init: init, Seq: seq}
 				if companion {
 					cs.Pre = append(cs.Pre, opSpec{Id: next(), Kind: "set", Key: "s9"})
 				}
@@ -285,10 +285,20 @@ func account(c *rig.Check, cs caseSpec, cr caseResult) {
 	for n, v := range cr.HookHits {
 		c.Count("hook_hits:"+n, v)
 	}
-	if cs.Scen == "idle" && cr.PredictedClose != "" && len(cr.CloseTicks) > 0 {
-		c.Count("idle_cases_with_close_observed", 1)
-		if cr.CloseTicks[0] == cr.PredictedClose || cs.TickK < 0 {
+	if cs.Scen == "idle" && cr.PredictedClose != "" {
+		// self-check of the tick arithmetic: while the recorder was installed (until the racers had
+		// returned) the listener may have decided to close only on the predicted tick (or not at all,
+		// when a racer refreshed the last-interaction time first)
+		switch {
+		case len(cr.CloseTicks) == 0:
+			c.Count("idle_no_close_at_race_instant(racer_came_first)", 1)
+		case cr.CloseTicks[0] == cr.PredictedClose:
 			c.Count("idle_close_on_predicted_tick", 1)
+		default:
+			c.Count("idle_close_on_unpredicted_tick", 1)
+			if cr.Inconclusive == "" {
+				cr.Inconclusive = "close-listener closed at +" + cr.CloseTicks[0] + ", predicted +" + cr.PredictedClose + " (tick arithmetic of the monitor is off)"
+			}
 		}
 	}
 	if cr.RaceAbort {
